@@ -12,6 +12,7 @@ and no solver is consulted.
 from __future__ import annotations
 
 import ast
+import copy
 import os
 import string
 from dataclasses import dataclass, field
@@ -195,6 +196,13 @@ class Unsupported(Exception):
     pass
 
 
+# decorators a `def` may carry without the name being bound to something that behaves differently from the function
+# itself as far as this analysis goes (descriptors are handled where attributes are read, caches and generator-based
+# context managers where they are called)
+_TRANSPARENT_DECORATORS = {"staticmethod", "classmethod", "property", "setter", "getter", "deleter", "final", "abstractmethod", "override", "overload",
+                           "cache", "lru_cache", "cached_property", "memoize", "memoized", "contextmanager", "asynccontextmanager", "wraps", "no_type_check"}
+
+
 class Interp:
     def __init__(
         self,
@@ -358,6 +366,10 @@ class Interp:
     def _invoke(self, fi: FunctionInfo, bound: Dict[str, Term], st: State, ctx: Ctx) -> List[Outcome]:
         if ctx.depth > self.max_depth:
             raise AnalysisError(f"inlining depth exceeded at {fi.key}")
+        if not getattr(fi, "raw_view", False) and getattr(fi.node, "decorator_list", None):
+            wrapping = [d for d in fi.node.decorator_list if ast.unparse(d).split("(")[0].split(".")[-1] not in _TRANSPARENT_DECORATORS]
+            if wrapping:
+                return self._invoke_decorated(fi, wrapping, bound, st, ctx)
         self.functions_visited[fi.key] = self.functions_visited.get(fi.key, 0) + 1
         cdecos = [d for d in fi.decorators if d.split("(")[0].split(".")[-1] in ("cache", "lru_cache", "cached_property", "memoize", "memoized")]
         cached_entry = None
@@ -417,6 +429,56 @@ class Interp:
             else:
                 raise AnalysisError(f"stray {sig[0]} in {fi.key}")
         return outs
+
+    def _invoke_decorated(self, fi: FunctionInfo, wrapping: List[ast.expr], bound: Dict[str, Term], st: State, ctx: Ctx) -> List[Outcome]:
+        """A call of a function whose `def` carries decorators that are not known to be transparent.
+
+        The name is bound to what the decorators return, so that is what is called: the decorators are applied once
+        (import time, in a scratch state, innermost first) to the undecorated function, the result must be a function
+        of the repository (typically a closure around the undecorated one), and the call goes to it with the same
+        arguments.  A decorator that cannot be followed, has effects, or returns something else is not modelled (exit 2)."""
+        memo = self.__dict__.setdefault("_decorated_memo", {})
+        if fi.key not in memo:
+            raw = copy.copy(fi)
+            raw.raw_view = True                                  # type: ignore[attr-defined]
+            if getattr(fi, "closure", None) is not None:
+                raw.closure = fi.closure                          # type: ignore[attr-defined]
+            value: Term = ("func", raw)
+            scratch = self.new_state()
+            mctx = Ctx(None, fi.module, 0)
+            try:
+                for d in reversed(fi.node.decorator_list):
+                    if not any(d is w for w in wrapping):
+                        continue
+                    dv = self.eval(d, scratch, mctx)
+                    value = self.call(dv, [value], {}, scratch, mctx, d)
+            except (NeedSplit, Infeasible) as exc:
+                raise AnalysisError(f"decorators of {fi.key} could not be followed ({type(exc).__name__})")
+            eff = [e for e in scratch.events if not _benign_event(e, scratch)]
+            if eff:
+                raise AnalysisError(f"decorators of {fi.key} have effects at import time ({eff[0]!r}): not modelled")
+            if not (isinstance(value, tuple) and value and ((value[0] == "lambda" and isinstance(value[1], (ast.FunctionDef, ast.AsyncFunctionDef))) or value[0] == "func")):
+                raise AnalysisError(f"decorators of {fi.key} do not return a repository function ({T.show(value)[:80]}): not modelled")
+            if value[0] == "lambda":
+                if any(isinstance(x, tuple) and x and x[0] == "obj" for x in (value[4] or {}).values()):
+                    raise AnalysisError(f"the function the decorators of {fi.key} return captures an object built at import time: not modelled")
+                value = ("func", self.closure_function(value))
+            memo[fi.key] = value
+        target = memo[fi.key]
+        a = fi.node.args
+        if a.vararg or a.kwarg or a.kwonlyargs:
+            raise AnalysisError(f"decorated function {fi.key} with star / keyword-only parameters: not modelled")
+        args: List[Term] = []
+        kwargs: Dict[str, Term] = {}
+        for p_ in fi.params:
+            if p_ in bound and not kwargs:
+                args.append(bound[p_])
+            elif p_ in bound:
+                kwargs[p_] = bound[p_]
+            else:
+                kwargs["$gap"] = c(None)
+        kwargs.pop("$gap", None)
+        return self.call_user_forking(target, args, kwargs, st, ctx, fi.node, False)
 
     # -- class-level attributes ----------------------------------------------
     _MUTATORS = {"append", "extend", "insert", "pop", "remove", "clear", "update", "setdefault", "add", "discard", "popitem", "sort", "reverse", "__setitem__", "__delitem__"}
@@ -626,6 +688,10 @@ class Interp:
         memo = self.__dict__.setdefault("_split_memo", {})
         r = memo.get(id(node))
         if r is None:
+            if isinstance(node, (ast.For, ast.AsyncFor)):
+                # (a loop over what a call returns: the call may need the split; re-running the whole loop under each case is the same program)
+                r = memo[id(node)] = any(isinstance(n, ast.Call) for n in ast.walk(node.iter))
+                return r
             r = memo[id(node)] = (not isinstance(node, (ast.If, ast.For, ast.While, ast.With, ast.Try, ast.FunctionDef, ast.AsyncFunctionDef, ast.ClassDef, ast.AsyncFor, ast.AsyncWith, ast.Match, ast.Pass, ast.Break, ast.Continue, ast.Global, ast.Nonlocal, ast.Import, ast.ImportFrom))
                                   and any(isinstance(n, (ast.Call, ast.IfExp)) for n in ast.walk(node)))
         return r
@@ -1164,7 +1230,25 @@ class Interp:
     # -- control flow
     def st_If(self, node: ast.If, st: State, ctx: Ctx) -> List[Tuple[State, Any]]:
         out: List[Tuple[State, Any]] = []
-        for s, cond, sig in self.cond_forking(node.test, st, ctx):
+        memo = self.__dict__.setdefault("_if_split_memo", {})
+        if id(node) not in memo:
+            memo[id(node)] = any(isinstance(n, ast.BoolOp) for n in ast.walk(node.test)) and any(isinstance(n, ast.Call) for n in ast.walk(node.test))
+        snap = st.fork() if memo[id(node)] else None
+        try:
+            forks = self.cond_forking(node.test, st, ctx)
+        except NeedSplit as ns:
+            # an operand of `and` / `or` in the test does something observable: one run per outcome of the operands before it
+            if snap is None or getattr(self, "_split_depth", 0) >= 12 or decided_by(snap.pc, ns.cond) is not None:
+                raise AnalysisError(f"value-dependent selection at {ctx.loc(node)} needs a case split this statement is not prepared for")
+            other = snap.fork()
+            snap.pc.append(ns.cond)
+            other.pc.append(neg(ns.cond))
+            self._split_depth = getattr(self, "_split_depth", 0) + 1
+            try:
+                return self.st_If(node, snap, ctx) + self.st_If(node, other, ctx)
+            finally:
+                self._split_depth -= 1
+        for s, cond, sig in forks:
             if sig is not None:
                 out.append((s, sig))
                 continue
@@ -1729,6 +1813,15 @@ class Interp:
         suppressed: Optional[List[str]] = None
         for item in node.items:
             v = self.eval(item.context_expr, st, ctx)
+            enter = self._class_cm_method(v, "__aenter__" if isinstance(node, ast.AsyncWith) else "__enter__", st, ctx, node)
+            if enter is not None:
+                if item is not node.items[0]:
+                    raise AnalysisError(f"context manager object after another manager in one with statement at {ctx.loc(node)}")
+                body = node.body
+                if len(node.items) > 1:
+                    inner = type(node)(items=node.items[1:], body=node.body, type_comment=None)
+                    body = [ast.copy_location(inner, node)]
+                return self._with_class_cm(v, item, body, node, st, ctx)
             if isinstance(v, tuple) and v[:2] == ("app", "contextlib.suppress") and len(node.items) == 1 and item.optional_vars is None \
                     and all(isinstance(x, tuple) and x[0] in ("ext", "builtin") for x in v[2:]):
                 suppressed = [x[1].split("builtins.")[-1] for x in v[2:]]
@@ -1749,6 +1842,76 @@ class Interp:
         return out
 
     st_AsyncWith = st_With
+
+    def _class_cm_method(self, v: Term, name: str, st: State, ctx: Ctx, node: ast.AST) -> Optional[FunctionInfo]:
+        """The repository function that is `name` (__enter__ / __aenter__ / __exit__ / __aexit__) of the object v, if any."""
+        if not (isinstance(v, tuple) and v and v[0] == "obj"):
+            return None
+        try:
+            m = self.getattr(v, name, st.fork(), ctx, node)
+        except (AnalysisError, Unsupported):
+            return None
+        return m[2] if isinstance(m, tuple) and len(m) > 2 and m[0] == "bound" and isinstance(m[2], FunctionInfo) else None
+
+    def _with_class_cm(self, v: Term, item: ast.withitem, body: List[ast.stmt], node: ast.AST, st: State, ctx: Ctx) -> List[Tuple[State, Any]]:
+        """`[async] with obj [as x]: body` where obj is an instance of a repository class with __enter__ / __aenter__.
+
+        As the language defines it: x = [await] obj.__enter__(); the block; then [await] obj.__exit__(...) - with
+        (None, None, None) when the block ends without an exception (also by return / break / continue), with the
+        exception's details otherwise, in which case a true result suppresses the exception.  Not modelled (exit 2):
+        an exit method that reads its arguments (what it does would depend on the exception it is shown)."""
+        is_async = isinstance(node, ast.AsyncWith)
+        n_enter, n_exit = ("__aenter__", "__aexit__") if is_async else ("__enter__", "__exit__")
+        where = ctx.loc(node)
+        fx = self._class_cm_method(v, n_exit, st, ctx, node)
+        if fx is None:
+            raise AnalysisError(f"context manager object without a resolvable {n_exit} at {where}")
+        a = fx.node.args
+        pnames = {x.arg for x in (a.posonlyargs + a.args)[1:]} | {x.arg for x in a.kwonlyargs} | ({a.vararg.arg} if a.vararg else set()) | ({a.kwarg.arg} if a.kwarg else set())
+        reads_args = any(isinstance(n_, ast.Name) and n_.id in pnames for b in fx.node.body for n_ in ast.walk(b))
+        self._cm_counter = getattr(self, "_cm_counter", 0) + 1
+        hid = f"$cm{self._cm_counter}"
+        st.env[hid] = v
+
+        def loc(x: ast.AST) -> ast.AST:
+            for n_ in ast.walk(x):
+                if not hasattr(n_, "lineno"):
+                    ast.copy_location(n_, node)
+            return x
+
+        def mcall(name: str, args: List[ast.expr]) -> ast.expr:
+            c: ast.expr = ast.Call(func=ast.Attribute(value=ast.Name(id=hid, ctx=ast.Load()), attr=name, ctx=ast.Load()), args=args, keywords=[])
+            return ast.Await(value=c) if is_async else c
+
+        nones = lambda: [ast.Constant(value=None) for _ in range(3)]
+        enter_stmt: ast.stmt = ast.Assign(targets=[item.optional_vars], value=mcall(n_enter, []), type_comment=None) if item.optional_vars is not None \
+            else ast.Expr(value=mcall(n_enter, []))
+        exit_plain = loc(ast.Expr(value=mcall(n_exit, nones())))
+        exit_on_exc = loc(ast.If(test=mcall(n_exit, nones()), body=[ast.Pass()], orelse=[ast.Raise(exc=None, cause=None)]))
+        out: List[Tuple[State, Any]] = []
+        for s, sig in self.exec_block([loc(enter_stmt)], st, ctx):
+            if sig is not None:
+                s.env.pop(hid, None)
+                out.append((s, sig))
+                continue
+            for s2, sig2 in self.exec_block(body, s, ctx):
+                if sig2 is not None and sig2[0] == "raise":
+                    if reads_args:
+                        raise AnalysisError(f"{fx.key} reads the exception it is shown: not modelled at {where}")
+                    saved = s2.env.get("$exc")
+                    s2.env["$exc"] = sig2[1]
+                    for s3, sig3 in self.exec_block([exit_on_exc], s2, ctx):
+                        if saved is None:
+                            s3.env.pop("$exc", None)
+                        else:
+                            s3.env["$exc"] = saved
+                        s3.env.pop(hid, None)
+                        out.append((s3, sig3))
+                else:
+                    for s3, sig3 in self.exec_block([exit_plain], s2, ctx):
+                        s3.env.pop(hid, None)
+                        out.append((s3, sig3 if sig3 is not None else sig2))
+        return out
 
     def _with_generator_cm(self, fv: Term, fi: FunctionInfo, item: ast.withitem, body: List[ast.stmt], node: ast.AST, st: State, ctx: Ctx) -> List[Tuple[State, Any]]:
         """`with f(...) [as x]: body` where f is a repository generator decorated with (async)contextmanager.
@@ -3297,13 +3460,24 @@ class Interp:
         guard: List[Term] = []
         for i, v in enumerate(node.values):
             p0 = len(st.pending)
+            n_ev = len(st.events)
             x = self.eval(v, st, ctx)
             # short circuit: later operands only evaluated under the guard
             if guard:
                 for j in range(p0, len(st.pending)):
                     e, cnd, w, nev = st.pending[j]
                     st.pending[j] = (e, conj(guard + [cnd]), w, nev)
+                if any(not _benign_event(e_, st) for e_ in st.events[n_ev:]):
+                    # the operand does something observable (a call on an object of the environment ...): whether it
+                    # happens depends on the operands before it, so the statement is re-executed once per outcome
+                    for g_ in guard:
+                        if decided_by(st.pc, g_) is None:
+                            raise NeedSplit(g_)
             tx = self.truth(x, st)
+            if not is_c(tx) and i < len(node.values) - 1:
+                d_ = decided_by(st.pc, tx)
+                if d_ is not None:
+                    tx = c(d_)
             if is_c(tx):
                 if is_and and not tx[1]:
                     vals.append(x)
@@ -3993,6 +4167,15 @@ def ite(cond: Term, a: Term, b: Term) -> Term:
         return cond
     if is_c(a) and is_c(b) and a[1] is False and b[1] is True:
         return neg(cond)
+    if (cond[0] == "cmp" and cond[1] == "in" and isinstance(a, tuple) and len(a) == 3 and a[0] == "lookup" and a[2] == cond[2]
+            and isinstance(cond[3], tuple) and cond[3] and cond[3][0] == "tuple" and set(cond[3][1]) == {k for k, _ in a[1]}):
+        # table[x] if x in table else default, where all entries but one hold the default anyway: a two-way choice on
+        # that one key (larger remainders keep the table form, which is what a try / except KeyError around the look-up gives)
+        keep = [(k, v) for k, v in a[1] if v != b]
+        if not keep:
+            return b
+        if len(keep) == 1:
+            return ite(mkcmp("==", cond[2], keep[0][0]), keep[0][1], b)
     if _is_cond(a) and _is_cond(b):
         # boolean-valued choice: short-circuit forms of `and` / `or`
         if b == cond or (is_c(b) and b[1] is False):
